@@ -1,73 +1,34 @@
-import Stef.BitStream
+/-
+  stefmodel: the executable Lean model behind a one-line-in, one-line-out protocol.
+  Each line's first token selects the sub-driver. Core Lean only (no Mathlib) so it links.
+-/
+import Stef.Driver.Core
+import Stef.Driver.Bits
 
-open Stef
+open Stef.Driver
 
-structure DState where
-  bw : BitsWriter := {}
-  br : BitsReader := {}
+def mkHandlers : IO (List (List String × Handler)) := do
+  let bits ← mkHandler ({} : Bits.St) Bits.step
+  pure [
+    (["bw", "br"], bits)
+  ]
 
-def showR (b : BitsReader) (v : Word) : String :=
-  if b.panicked then "panic" else s!"{wordToHex v} eof={if b.eof then 1 else 0}"
-
-def stepBits (st : DState) (toks : List String) : DState × String :=
-  match toks with
-  | ["bw", "new"] => ({ st with bw := {} }, "ok")
-  | ["bw", "bits", v, n] =>
-    match hexToWord v, n.toNat? with
-    | some v, some n => ({ st with bw := st.bw.writeBits v n }, "ok")
-    | _, _ => (st, "bad-op")
-  | ["bw", "bit", v] =>
-    match hexToWord v with
-    | some v => ({ st with bw := st.bw.writeBit v }, "ok")
-    | _ => (st, "bad-op")
-  | ["bw", "uvc", v] =>
-    match hexToWord v with
-    | some v => let (w, n) := st.bw.writeUvarintCompact v; ({ st with bw := w }, s!"n={n}")
-    | _ => (st, "bad-op")
-  | ["bw", "vc", v] =>
-    match hexToWord v with
-    | some v => let (w, n) := st.bw.writeVarintCompact v; ({ st with bw := w }, s!"n={n}")
-    | _ => (st, "bad-op")
-  | ["bw", "close"] =>
-    let n := st.bw.bitCount
-    let w := st.bw.close
-    ({ st with bw := w }, s!"bytes={bytesToHex w.stream} bits={n}")
-  | ["br", "new", h] =>
-    match hexToBytes h with
-    | some bs => ({ st with br := { buf := bs } }, "ok")
-    | none => (st, "bad-op")
-  | ["br", "bits", n] =>
-    match n.toNat? with
-    | some n => let (b, v) := st.br.readBits n; ({ st with br := b }, showR b v)
-    | none => (st, "bad-op")
-  | ["br", "bit"] => let (b, v) := st.br.readBit; ({ st with br := b }, showR b v)
-  | ["br", "peek", n] =>
-    match n.toNat? with
-    | some n => let (b, v) := st.br.peekBits n; ({ st with br := b }, showR b v)
-    | none => (st, "bad-op")
-  | ["br", "consume", n] =>
-    match n.toNat? with
-    | some n => ({ st with br := st.br.consume n }, "ok")
-    | none => (st, "bad-op")
-  | ["br", "uvc"] => let (b, v) := st.br.readUvarintCompact; ({ st with br := b }, showR b v)
-  | ["br", "vc"] => let (b, v) := st.br.readVarintCompact; ({ st with br := b }, showR b v)
-  | _ => (st, "bad-op")
-
-def step (st : DState) (line : String) : DState × String :=
-  let toks := (line.trimAscii.toString.splitOn " ").filter (· ≠ "")
-  match toks with
-  | "bw" :: _ => stepBits st toks
-  | "br" :: _ => stepBits st toks
-  | _ => (st, "bad-op")
-
-partial def loop (h : IO.FS.Stream) (out : IO.FS.Stream) (st : DState) : IO Unit := do
+partial def loop (h out : IO.FS.Stream) (hs : List (List String × Handler)) : IO Unit := do
   let line ← h.getLine
   if line.isEmpty then return ()
-  let (st', o) := step st line
+  let toks := tokens line
+  let o ← match toks with
+    | [] => pure "bad-op"
+    | t :: _ =>
+      match hs.find? (fun p => p.1.contains t) with
+      | some (_, f) => f toks
+      | none => pure "bad-op"
   out.putStrLn o
-  loop h out st'
+  loop h out hs
 
 def main : IO Unit := do
   let stdin ← IO.getStdin
   let stdout ← IO.getStdout
-  loop stdin stdout {}
+  let hs ← mkHandlers
+  loop stdin stdout hs
+  stdout.flush
